@@ -118,6 +118,9 @@ type ExprGen struct {
 	Tag  string
 	Uniq string
 	varN int
+	// shadow: identifier-safe top-level keys of the datum, candidates for
+	// placeholder names that collide with selectors
+	shadow []string
 }
 
 func (g *ExprGen) quote(s string) string {
@@ -326,6 +329,12 @@ func (g *ExprGen) leaf(p scopePath, depth int) string {
 		} else if g.R.Chance(0.5) {
 			elemLit = fmt.Sprint(g.R.Range(0, 5))
 		}
+		if g.R.Chance(0.06) {
+			// index spellings that are legal selector text but not plain indexes:
+			// negative, padded, signed, hexadecimal, out of range
+			odd := g.R.Pick([]string{"-1", "-2", "01", "+1", "0x1", "999999", "1e0", "00"})
+			return g.selector(append(p.full(), odd)) + " == " + elemLit
+		}
 		switch g.R.Intn(6) {
 		case 0, 1:
 			if neg {
@@ -394,6 +403,11 @@ func isValidUTF8Cut(s string, n int) bool {
 
 func (g *ExprGen) newVar() string {
 	g.varN++
+	if len(g.shadow) > 0 && g.R.Chance(0.2) {
+		// a placeholder named like a top-level key of the datum: inside the body it
+		// shadows that key, outside (and in later calls) it must not
+		return g.shadow[g.R.Intn(len(g.shadow))]
+	}
 	return fmt.Sprintf("%s%d", g.R.Pick([]string{"v", "e", "item", "k", "w"}), g.varN)
 }
 
@@ -542,8 +556,12 @@ func (g *ExprGen) tree(scope []scopePath, depth int, width int) string {
 // Gen renders an expression over the datum root.
 func (g *ExprGen) Gen(root interface{}, qdepth int, width int) string {
 	var scope []scopePath
+	g.shadow = nil
 	for _, p := range EnumPaths(reflect.ValueOf(root), g.Tag, 3) {
 		scope = append(scope, scopePath{PathInfo: p})
+		if len(p.Parts) == 1 && identRe.MatchString(p.Parts[0]) && !reservedWords[p.Parts[0]] {
+			g.shadow = append(g.shadow, p.Parts[0])
+		}
 	}
 	e := g.tree(scope, qdepth, width)
 	if g.R.Chance(0.02) {
@@ -569,9 +587,13 @@ func (g *ExprGen) Gen(root interface{}, qdepth int, width int) string {
 // GenQuantified forces a top-level quantifier when the datum has a collection.
 func (g *ExprGen) GenQuantified(root interface{}, qdepth int) string {
 	var colls []scopePath
+	g.shadow = nil
 	for _, p := range EnumPaths(reflect.ValueOf(root), g.Tag, 3) {
 		if p.Cat == "map" || p.Cat == "slice" {
 			colls = append(colls, scopePath{PathInfo: p})
+		}
+		if len(p.Parts) == 1 && identRe.MatchString(p.Parts[0]) && !reservedWords[p.Parts[0]] {
+			g.shadow = append(g.shadow, p.Parts[0])
 		}
 	}
 	if len(colls) == 0 {
